@@ -304,6 +304,13 @@ pub fn replay_layer(case: &Value, rep: &mut Report) {
                         case,
                     );
                 }
+                // the output is a function of the input alone: the same call again gives the same bits
+                if let Ok((pre2, post2, _)) = guarded(|| layer.forward(input)) {
+                    let bits = |t: &Tensor| flat(t).iter().map(|v| v.to_bits()).collect::<Vec<u32>>();
+                    if bits(&pre2) != bits(&pre) || bits(&post2) != bits(&post) {
+                        rep.mismatch("C02", &format!("forward_not_repeatable:{}", kind), &id, json!({"input": repr}), case);
+                    }
+                }
                 if repr == "spatial" || kind == "dense" {
                     observed = Some((pre, post, max));
                 }
